@@ -59,6 +59,12 @@ def specs(draw, tier):
         spec["n"] = draw(st.integers(1, 6))
         spec["threshold"] = draw(st.sampled_from(["auto", "auto", "extrema", "mean", "otsu"]))
         spec["shapes"] = draw(st.sampled_from(["round", "bars", "band"])) if dim >= 2 else "round"
+        if dim >= 2 and draw(st.integers(0, 5)) == 1:
+            # a slab: a single cell along one axis (the box still has its full dimension); objects are drawn cell-wise
+            shape[draw(st.integers(0, dim - 1))] = 1
+            spec["shape"] = shape
+            spec["shift"] = [min(k, n - 1) for k, n in zip(spec["shift"], shape)]
+            spec["shapes"] = "bars"
         if spec["shapes"] == "band":  # the crest of an oblique plane wave: thin bands that wind around the periodic axes
             spec["band"] = [draw(st.integers(0, 3)) for _ in range(dim)]
             if not any(spec["band"]):
@@ -115,6 +121,8 @@ class C17(Property):
         alias, full = bool(spec.get("alias")), bool(spec.get("full_output"))
         if any(of):
             ctx.cls("origin!=0")
+        if min(shape) == 1 and dim >= 2:
+            ctx.cls("single-cell-axis")
         if not all(per):
             ctx.cls("mixed-periodicity")
         rng = np.random.default_rng(spec["seed"])
@@ -180,11 +188,13 @@ class C17(Property):
                 clear = all(pa or (o + r + 2 * dx <= x <= o + l - r - 2 * dx) for pa, x, o, l, dx in zip(per, p, org, L, spacing))
                 if clear and all(geom.dist(p, q) > r + rq + 3 * float(np.linalg.norm(spacing)) for q, rq in drops) and 2 * r + 3 * max(spacing) < L.min():
                     drops.append((p, r))
-            if not drops:
+            cellwise = spec.get("shapes") in ("bars", "band")  # images drawn cell by cell do not need room for a round droplet
+            if not drops and not cellwise:
                 ctx.skip("no-room")
                 return
-            em = Emulsion([DiffuseDroplet(p, r, 0.8 * min(spacing)) for p, r in drops])
-            data = spec["amp"] * (em.get_phasefield(grid).data + spec["offset"])
+            if drops:
+                em = Emulsion([DiffuseDroplet(p, r, 0.8 * min(spacing)) for p, r in drops])
+                data = spec["amp"] * (em.get_phasefield(grid).data + spec["offset"])
             bars = spec.get("shapes") == "bars"
             if bars:
                 # elongated, non-round clusters: their equal-volume spheres may overlap although the clusters do not touch, so
@@ -208,6 +218,14 @@ class C17(Property):
                         long_ax = int(np.argmax(ext))
                         ext2[long_ax] = max(1, ext[long_ax] - 1 - int(rng.integers(0, 3)))
                         mask[np.ix_(*[rng_cells(a, e, n, pa) for a, e, n, pa in zip(lo2, ext2, shape, per)])] = True
+                if min(shape) >= 8 and rng.random() < 0.4:
+                    # two equal cubes that touch in a corner only: two objects under face connectivity, their equal-volume spheres
+                    # do not overlap - wherever the box boundary cuts the picture
+                    k = int(rng.integers(2, max(3, min(shape) // 4)))
+                    lo = [int(rng.integers(0, n)) if pa else int(rng.integers(0, n - 2 * k + 1)) for n, pa in zip(shape, per)]
+                    for off in (0, k):
+                        mask[np.ix_(*[rng_cells(a + off, k, n, pa) for a, n, pa in zip(lo, shape, per)])] = True
+                    ctx.cls("corner-contact")
                 data = spec["amp"] * (mask.astype(float) + spec["offset"])
                 ctx.cls("bars")
             band = spec.get("shapes") == "band"
